@@ -23,6 +23,7 @@ def run(rep, idx, tier):
     rep.require("C02.6", 7)
     rep.require("C02.7", 4)
     rep.require("C02.8", 3)
+    rep.require("C02.9", 3)
     thorough = tier == "thorough"
     mm = idx.find_class("MemoryMap")
     add_res = idx.find_func("MemoryMap.add_resource")
@@ -47,6 +48,9 @@ def run(rep, idx, tier):
     intervals(rep, idx)
     # ---- C02.7 ordered reporting ----------------------------------------------------------------------------
     ordering(rep, idx)
+    # ---- C02.9 the rounding helper (modular reduction, not a numeric run) ---------------------------------------
+    from . import glue
+    glue.align_up(rep, idx, "C02.9")
 
 
 def handover(rep, idx):
